@@ -87,3 +87,55 @@ Theorem C08_destroy_model_is_code : forall (s : state) (h oh : N) (x : session),
   rv_of (snd (step s (ODestroy h oh))) = Some (C_DestroyObject.app (destroy_env s h oh x)).
 Proof. exact destroy_model_is_code. Qed.
 Print Assumptions C08_destroy_model_is_code.
+
+(* ---- the functions that create key objects, regenerated whole in trace mode (gen/Gen_Keys.v, coq/P11/KeyGenFacts.v) ---- *)
+From SoftHSM Require Import Gen_Keys KeyGenSpec KeyGenFacts.
+
+(* the five secret-key generators, regenerated whole (gen/Gen_Keys.v): CKA_LOCAL true, CKA_ALWAYS_SENSITIVE = the new object's
+   CKA_SENSITIVE, CKA_NEVER_EXTRACTABLE = not CKA_EXTRACTABLE, whenever written; a successful call has written them *)
+Theorem C08_generated_key_history_attributes :
+  (forall (e : generateAES.env),
+     (forall v, In (CKA_LOCAL, v) (snd (generateAES.app e)) -> v = 1) /\
+     (forall v, In (CKA_ALWAYS_SENSITIVE, v) (snd (generateAES.app e)) -> v = b2n (negb (generateAES.osobject_getBooleanValue e CKA_SENSITIVE false =? 0))) /\
+     (forall v, In (CKA_NEVER_EXTRACTABLE, v) (snd (generateAES.app e)) -> v = b2n (generateAES.osobject_getBooleanValue e CKA_EXTRACTABLE false =? 0)) /\
+     (fst (generateAES.app e) = 0 -> (exists v, In (CKA_VALUE, v) (snd (generateAES.app e))) /\ (exists v, In (CKA_LOCAL, v) (snd (generateAES.app e))) /\
+                             (exists v, In (CKA_ALWAYS_SENSITIVE, v) (snd (generateAES.app e))) /\ (exists v, In (CKA_NEVER_EXTRACTABLE, v) (snd (generateAES.app e))))) /\
+  (forall (e : generateDES.env),
+     (forall v, In (CKA_LOCAL, v) (snd (generateDES.app e)) -> v = 1) /\
+     (forall v, In (CKA_ALWAYS_SENSITIVE, v) (snd (generateDES.app e)) -> v = b2n (negb (generateDES.osobject_getBooleanValue e CKA_SENSITIVE false =? 0))) /\
+     (forall v, In (CKA_NEVER_EXTRACTABLE, v) (snd (generateDES.app e)) -> v = b2n (generateDES.osobject_getBooleanValue e CKA_EXTRACTABLE false =? 0)) /\
+     (fst (generateDES.app e) = 0 -> (exists v, In (CKA_VALUE, v) (snd (generateDES.app e))) /\ (exists v, In (CKA_LOCAL, v) (snd (generateDES.app e))) /\
+                             (exists v, In (CKA_ALWAYS_SENSITIVE, v) (snd (generateDES.app e))) /\ (exists v, In (CKA_NEVER_EXTRACTABLE, v) (snd (generateDES.app e))))) /\
+  (forall (e : generateDES2.env),
+     (forall v, In (CKA_LOCAL, v) (snd (generateDES2.app e)) -> v = 1) /\
+     (forall v, In (CKA_ALWAYS_SENSITIVE, v) (snd (generateDES2.app e)) -> v = b2n (negb (generateDES2.osobject_getBooleanValue e CKA_SENSITIVE false =? 0))) /\
+     (forall v, In (CKA_NEVER_EXTRACTABLE, v) (snd (generateDES2.app e)) -> v = b2n (generateDES2.osobject_getBooleanValue e CKA_EXTRACTABLE false =? 0)) /\
+     (fst (generateDES2.app e) = 0 -> (exists v, In (CKA_VALUE, v) (snd (generateDES2.app e))) /\ (exists v, In (CKA_LOCAL, v) (snd (generateDES2.app e))) /\
+                             (exists v, In (CKA_ALWAYS_SENSITIVE, v) (snd (generateDES2.app e))) /\ (exists v, In (CKA_NEVER_EXTRACTABLE, v) (snd (generateDES2.app e))))) /\
+  (forall (e : generateDES3.env),
+     (forall v, In (CKA_LOCAL, v) (snd (generateDES3.app e)) -> v = 1) /\
+     (forall v, In (CKA_ALWAYS_SENSITIVE, v) (snd (generateDES3.app e)) -> v = b2n (negb (generateDES3.osobject_getBooleanValue e CKA_SENSITIVE false =? 0))) /\
+     (forall v, In (CKA_NEVER_EXTRACTABLE, v) (snd (generateDES3.app e)) -> v = b2n (generateDES3.osobject_getBooleanValue e CKA_EXTRACTABLE false =? 0)) /\
+     (fst (generateDES3.app e) = 0 -> (exists v, In (CKA_VALUE, v) (snd (generateDES3.app e))) /\ (exists v, In (CKA_LOCAL, v) (snd (generateDES3.app e))) /\
+                             (exists v, In (CKA_ALWAYS_SENSITIVE, v) (snd (generateDES3.app e))) /\ (exists v, In (CKA_NEVER_EXTRACTABLE, v) (snd (generateDES3.app e))))) /\
+  (forall (e : generateGeneric.env),
+     (forall v, In (CKA_LOCAL, v) (snd (generateGeneric.app e)) -> v = 1) /\
+     (forall v, In (CKA_ALWAYS_SENSITIVE, v) (snd (generateGeneric.app e)) -> v = b2n (negb (generateGeneric.osobject_getBooleanValue e CKA_SENSITIVE false =? 0))) /\
+     (forall v, In (CKA_NEVER_EXTRACTABLE, v) (snd (generateGeneric.app e)) -> v = b2n (generateGeneric.osobject_getBooleanValue e CKA_EXTRACTABLE false =? 0)) /\
+     (fst (generateGeneric.app e) = 0 -> (exists v, In (CKA_VALUE, v) (snd (generateGeneric.app e))) /\ (exists v, In (CKA_LOCAL, v) (snd (generateGeneric.app e))) /\
+                             (exists v, In (CKA_ALWAYS_SENSITIVE, v) (snd (generateGeneric.app e))) /\ (exists v, In (CKA_NEVER_EXTRACTABLE, v) (snd (generateGeneric.app e))))).
+Proof. exact generated_history_attributes. Qed.
+Print Assumptions C08_generated_key_history_attributes.
+
+(* C_UnwrapKey regenerated whole (gen/Gen_Keys.v): an unwrapped key is stored with CKA_LOCAL, CKA_ALWAYS_SENSITIVE and
+   CKA_NEVER_EXTRACTABLE false, and a successful call has written them *)
+Theorem C08_unwrapped_key_history_attributes : forall (e : C_UnwrapKey.env),
+  (forall v, In (CKA_VALUE, v) (snd (C_UnwrapKey.app e)) -> C_UnwrapKey.hv1_isPrivate e <> 0 -> exists x, v = C_UnwrapKey.token_encrypt_out_value e x) /\
+  (forall v, In (CKA_LOCAL, v) (snd (C_UnwrapKey.app e)) -> v = 0) /\
+  (forall v, In (CKA_ALWAYS_SENSITIVE, v) (snd (C_UnwrapKey.app e)) -> v = 0) /\
+  (forall v, In (CKA_NEVER_EXTRACTABLE, v) (snd (C_UnwrapKey.app e)) -> v = 0) /\
+  (fst (C_UnwrapKey.app e) = 0 -> (C_UnwrapKey.hv1_objClass e = CKO_SECRET_KEY -> exists v, In (CKA_VALUE, v) (snd (C_UnwrapKey.app e))) /\
+     (exists v, In (CKA_LOCAL, v) (snd (C_UnwrapKey.app e))) /\ (exists v, In (CKA_ALWAYS_SENSITIVE, v) (snd (C_UnwrapKey.app e))) /\
+     (exists v, In (CKA_NEVER_EXTRACTABLE, v) (snd (C_UnwrapKey.app e)))).
+Proof. exact unwrapped_key_attributes. Qed.
+Print Assumptions C08_unwrapped_key_history_attributes.
